@@ -462,3 +462,36 @@ def p_c20(tr, V, st):
 def p_alive(tr, V, st):
     """C06/C07: the daemon is never killed by client or device input (death of the harness process = abort/exit/sanitizer)"""
     pass
+
+
+def p_c08(tr, V, st):
+    """every line a device receives is one of its specification's send strings with %s replaced by a plug name or a
+    range expression (the allowed set is read from the specification files themselves, independently of the model)"""
+    import os
+    allowed = {}
+    for di, path in ((0, os.path.join(_repo(), 't', 'etc', 'vpc.dev')), (1, os.path.join(os.path.dirname(os.path.dirname(os.path.abspath(__file__))), 'harness', 'xp.dev'))):
+        pats = []
+        for m in re.finditer(r'send\s+"((?:[^"\\]|\\.)*)"', open(path).read()):
+            raw = m.group(1).encode().decode('unicode_escape').encode('latin1')
+            rx = re.escape(raw).replace(re.escape(b'%s'), rb'[0-9\[\],\-]+')
+            pats.append(re.compile(b'^' + rx + b'$', re.S))
+        allowed[di] = pats
+    fd2dev = {}
+    for p in tr:
+        for di, d in p.devs.items():
+            if d.get('fd', -1) >= 0: fd2dev[d['fd']] = di
+        for fd, w in p.writes.items():
+            if fd < 2000 or fd not in fd2dev or not w['data']: continue
+            b = w['data']
+            # strip telnet option answers (IAC WILL/WONT o), which come from the transport, not from a script
+            b = re.sub(rb'\xff[\xfb\xfc].', b'', b, flags=re.S)
+            for ln in b.split(b'\n')[:-1] if b.endswith(b'\n') else b.split(b'\n'):
+                if not ln: continue
+                st['C08 script lines on the wire'] += 1
+                if not any(rx.match(ln + b'\n') for rx in allowed[fd2dev[fd]]):
+                    V.append(dict(sig='C08 bytes on the wire that are no send string of the specification', at=p.i, dev=fd2dev[fd], line=repr(ln[:60])))
+
+
+def _repo():
+    import common
+    return common.REPO
